@@ -92,6 +92,66 @@ fn craft(g: &mut G, sc: &mut Scenario, from: usize) {
     }
 }
 
+// ---------- factory shapes: a contract that HOLDS records runs exactly once and creates / calls others ----------
+fn fresh(g: &mut G) -> u64 {
+    let n = g.next_node;
+    g.next_node += 1;
+    n
+}
+fn never(id: u64, ro: ReplyOnS, m: Msg, g: &mut G) -> Sub {
+    let (n3, n4) = (fresh(g), fresh(g));
+    Sub { id, payload: vec![], ro, m: Box::new(m), on_ok: leaf(n3, vec![marker(n3)]), on_err: leaf(n4, vec![marker(n4)]) }
+}
+fn factory_op(g: &mut G, variant: u64, sender: &str, a: &str, b: &str, alice: &str) -> TopOp {
+    let n = fresh(g);
+    let pool = crafted(alice, b);
+    let mut acts = vec![marker(n), w(b"rec1".to_vec(), &[n as u8, 1]), w(g.rng.pick(&pool).clone(), &[n as u8, 2])];
+    if g.rng.chance(1, 2) {
+        acts.push(Action::Remove(g.rng.pick(&pool).clone()));
+    }
+    if g.rng.chance(1, 3) {
+        acts.push(Action::Remove(b"a".to_vec()));
+    }
+    acts.push(Action::Q(QAct::Dump));
+    let (nc, nb) = (fresh(g), fresh(g));
+    let code_id = *g.rng.pick(&[1u64, 2, 7, 9]);
+    let inst = Msg::Inst {
+        code_id,
+        p: leaf(nc, vec![marker(nc), w(b"a".to_vec(), &[nc as u8]), w(g.rng.pick(&pool).clone(), &[nc as u8, 3]), Action::Q(QAct::Raw(a.to_string(), b"rec1".to_vec()))]),
+        funds: vec![],
+        label: "child".into(),
+        admin: None,
+        salt: if g.rng.chance(1, 3) { Some(vec![nc as u8, 1]) } else { None },
+    };
+    let call_b = Msg::Exec { c: b.into(), p: leaf(nb, vec![marker(nb), w(b"rec1".to_vec(), &[nb as u8]), w(g.rng.pick(&pool).clone(), &[nb as u8, 4]), Action::Q(QAct::Dump)]), funds: vec![] };
+    // ReplyOn::Never, or Error on a sub-message that succeeds: no reply entry at a, so a's code runs exactly once
+    let subs = match variant % 5 {
+        0 => vec![never(1, ReplyOnS::Never, inst, g)],
+        1 => vec![never(1, ReplyOnS::Never, call_b, g)],
+        2 => vec![never(1, ReplyOnS::Never, inst, g), never(2, ReplyOnS::Error, call_b, g)],
+        3 => vec![never(1, ReplyOnS::Error, inst, g)],
+        _ => vec![never(1, ReplyOnS::Never, call_b, g), never(2, ReplyOnS::Never, inst, g)],
+    };
+    let p = with_subs(n, acts, subs);
+    match variant % 5 {
+        3 => TopOp::WasmSudo { c: a.into(), p },
+        4 => {
+            let n2 = fresh(g);
+            TopOp::ExecMulti { sender: sender.into(), ms: vec![Msg::Exec { c: a.into(), p, funds: vec![] }, Msg::BankSend { to: alice.into(), amt: vec![CoinS { denom: "uatom".into(), amount: 1 }] }, Msg::Custom { ok: true, tag: n2 }] }
+        }
+        _ => TopOp::Exec { sender: sender.into(), m: Msg::Exec { c: a.into(), p, funds: vec![] } },
+    }
+}
+fn factory_step(g: &mut G, k: usize) -> Step {
+    let sender = g.some_user();
+    let i = g.rng.below(k as u64) as usize;
+    let j = (i + 1 + g.rng.below((k - 1).max(1) as u64) as usize) % k;
+    let (a, b) = (g.contracts[i].clone(), g.contracts[j].clone());
+    let alice = g.users[0].clone();
+    let v = g.rng.below(5);
+    Step { block: G::block0(), op: factory_op(g, v, &sender, &a, &b, &alice) }
+}
+
 fn fixed_scenarios() -> Vec<Scenario> {
     let codes = default_codes();
     let (alice, bob, carol) = (user("alice"), user("bob"), user("carol"));
@@ -189,6 +249,17 @@ fn fixed_scenarios() -> Vec<Scenario> {
     });
     // migrate B to code 9 (same address, same storage), then read
     step(TopOp::Exec { sender: alice.clone(), m: Msg::Migrate { c: b_addr.clone(), new_code: 9, p: leaf(60, vec![marker(60), Action::Q(QAct::Dump)]) } });
+    // A (holding crafted records) creates a child and calls C without any reply: all of A's records must survive
+    {
+        let child = |n: u64| Msg::Inst { code_id: 2, p: leaf(n, vec![marker(n), w(b"a".to_vec(), &[n as u8])]), funds: vec![], label: "child".into(), admin: None, salt: None };
+        let sub = |id: u64, ro: ReplyOnS, m: Msg, n: u64| Sub { id, payload: vec![], ro, m: Box::new(m), on_ok: leaf(n, vec![marker(n)]), on_err: leaf(n + 1, vec![marker(n + 1)]) };
+        let call_c = Msg::Exec { c: c_addr.clone(), p: leaf(72, vec![marker(72), w(vec![255], &[72])]), funds: vec![] };
+        step(TopOp::Exec {
+            sender: bob.clone(),
+            m: Msg::Exec { c: a_addr.clone(), p: with_subs(70, vec![marker(70), w(b"rec".to_vec(), &[70]), Action::Remove(vec![0])], vec![sub(1, ReplyOnS::Never, child(71), 73), sub(2, ReplyOnS::Error, call_c, 75)]), funds: vec![] },
+        });
+        step(TopOp::WasmSudo { c: c_addr.clone(), p: with_subs(80, vec![marker(80), w(b"rec".to_vec(), &[80])], vec![sub(3, ReplyOnS::Never, child(81), 83)]) });
+    }
     vec![Scenario { codes, steps, users: vec![alice, bob, carol] }]
 }
 
@@ -213,6 +284,21 @@ fn emit8(out: &mut Out, sc: &Scenario, extra: serde_json::Value) {
         let ran: std::collections::BTreeSet<&String> = o.step.trace.iter().filter_map(|e| if let Entry::Call { callee, .. } = e { Some(callee) } else { None }).collect();
         out.stat(&format!("contracts_ran_{}", ran.len().min(4)), 1);
         out.stat("raw_keys_outside_windows", o.step.state.other.len() as u64);
+        // clauses 11 / 12: a successful call whose root contract ran exactly once while other code ran below it
+        if matches!(o.step.outcome, OutcomeS::Ok(_)) {
+            let callees: Vec<&String> = o.step.trace.iter().filter_map(|e| if let Entry::Call { callee, .. } = e { Some(callee) } else { None }).collect();
+            if let Some(root) = callees.first() {
+                let once = callees.iter().filter(|c| c == &root).count() == 1;
+                let held = o.before.cstore.iter().find(|(a, _)| &a == root).map(|(_, m)| m.len()).unwrap_or(0);
+                if once && callees.len() > 1 {
+                    out.stat("root_ran_once_with_children", 1);
+                    out.stat("records_held_by_such_roots", held as u64);
+                    if o.step.trace.iter().any(|e| matches!(e, Entry::Call { ep: Ep::Inst, .. })) {
+                        out.stat("root_ran_once_and_instantiated", 1);
+                    }
+                }
+            }
+        }
     }
     out.stat("crafted_keys_alive_after_steps", crafted_alive);
     // several contracts from the same code?
@@ -264,6 +350,12 @@ fn main() {
         let mut sc = g.scenario(k);
         let n_setup = sc.users.len() + k;
         craft(&mut g, &mut sc, n_setup);
+        // a contract holding records runs once and instantiates a child / executes another contract:
+        // one such step right after the setup, one at the end (when the windows hold many crafted records)
+        let f1 = factory_step(&mut g, k);
+        let f2 = factory_step(&mut g, k);
+        sc.steps.insert(n_setup, f1);
+        sc.steps.push(f2);
         emit8(&mut out, &sc, serde_json::json!({}));
     }
     finish(out, 8, rule);
